@@ -28,6 +28,9 @@ import (
 )
 
 func TestMain(m *testing.M) {
+	if os.Getenv("VERIF_C09_SEQ") != "" {
+		os.Exit(seqChildMain())
+	}
 	if os.Getenv("VERIF_C09_CHILD") != "" {
 		os.Exit(childMain())
 	}
@@ -44,7 +47,19 @@ type call struct {
 }
 
 var callKinds = []string{"SolarToLunar", "NewLunar", "LunarYearTable", "LunarMonthNext", "BadLunarMonth", "BadLunarDay", "BadSolar", "FarYear", "ReverseBaZi", "Holiday", "EdgeYear", "TermTable", "SolarWeekWalk",
-	"Fortune", "EightCharFull", "TaoFoto", "CivilUnits", "HolidayViews", "TwiceInARow"}
+	"Fortune", "EightCharFull", "TaoFoto", "CivilUnits", "HolidayViews", "TwiceInARow", "AncientYear"}
+
+// ancientYear maps a generated year to an astronomical year <= 0 the library still computes (its new-moon and
+// term tables reach back to -721 and -221): the first table intervals, and anything in -799..0.
+func ancientYear(y int) int {
+	switch y % 4 {
+	case 0:
+		return -721 + (y/4)%242
+	case 1:
+		return -221 + (y/4)%5
+	}
+	return -((y / 4) % 800)
+}
 
 func digestString(d map[string]string) string {
 	ks := make([]string, 0, len(d))
@@ -175,6 +190,21 @@ func run(c call) (out string) {
 			ss = append(ss, "|")
 		}
 		return strings.Join(ss, ",")
+	case "AncientYear": // years before AD 1: conversion and the year's month table
+		yy := ancientYear(y)
+		l := calendar.NewSolarFromYmd(yy, c.B, c.C).GetLunar()
+		var sb strings.Builder
+		fmt.Fprintf(&sb, "%d: %d/%d/%d %s %s %s|", yy, l.GetYear(), l.GetMonth(), l.GetDay(), l.GetYearInGanZhi(), l.GetMonthInGanZhi(), l.GetDayInGanZhi())
+		ly := calendar.NewLunarYear(yy)
+		fmt.Fprintf(&sb, "leap=%d days=%d:", ly.GetLeapMonth(), ly.GetDayCount())
+		for e := ly.GetMonths().Front(); e != nil; e = e.Next() {
+			m := e.Value.(*calendar.LunarMonth)
+			fmt.Fprintf(&sb, "%d/%d@%.1f+%d,", m.GetYear(), m.GetMonth(), m.GetFirstJulianDay(), m.GetDayCount())
+		}
+		for _, jd := range ly.GetJieQiJulianDays() {
+			fmt.Fprintf(&sb, "%.5f;", jd)
+		}
+		return sb.String()
 	case "TwiceInARow": // the same instant converted twice in a row, second answer reported
 		s := calendar.NewSolar(y, c.B, c.C, c.H, 7, 5)
 		_ = s.GetLunar().String()
@@ -259,6 +289,114 @@ var histories = ev.Register(&ev.P[histCase]{
 		return ls, nt
 	},
 	Require: []string{"evictionAndRecoveredPanic"},
+})
+
+// the true fresh-process baseline: package-level state of any kind (not only the year cache the hook resets)
+type freshCase struct {
+	History []call
+	Probe   call
+}
+
+type seqOut struct {
+	Results []string `json:"results"`
+}
+
+// seqChildMain: a child process that runs a list of calls in order from a cold start and prints each result.
+func seqChildMain() int {
+	var calls []call
+	b, err := os.ReadFile(os.Getenv("VERIF_C09_SEQ"))
+	if err != nil || json.Unmarshal(b, &calls) != nil {
+		fmt.Println("child: cannot read calls:", err)
+		return 3
+	}
+	var out seqOut
+	for _, c := range calls {
+		out.Results = append(out.Results, run(c))
+	}
+	j, _ := json.Marshal(out)
+	fmt.Println("CHILD-RESULT " + string(j))
+	return 0
+}
+
+// runInFreshProcess executes the calls in a new process of this same test binary; ok=false means the child
+// could not be run (infrastructure, never a verdict).
+func runInFreshProcess(calls []call) (res []string, ok bool) {
+	exe, err := os.Executable()
+	if err != nil {
+		ev.Infra("os.Executable: %v", err)
+		return nil, false
+	}
+	f, err := os.CreateTemp(os.Getenv("VERIF_OUT"), "c09seq*.json")
+	if err != nil {
+		ev.Infra("cannot create child input: %v", err)
+		return nil, false
+	}
+	defer os.Remove(f.Name())
+	b, _ := json.Marshal(calls)
+	f.Write(b)
+	f.Close()
+	cmd := exec.Command(exe)
+	cmd.Env = append(os.Environ(), "VERIF_C09_SEQ="+f.Name())
+	outb, cerr := cmd.CombinedOutput()
+	s := string(outb)
+	i := strings.Index(s, "CHILD-RESULT ")
+	if i < 0 {
+		ev.Infra("sequence child produced no result (err=%v): %.300s", cerr, s)
+		return nil, false
+	}
+	line := s[i+len("CHILD-RESULT "):]
+	if nl := strings.IndexByte(line, '\n'); nl >= 0 {
+		line = line[:nl]
+	}
+	var so seqOut
+	if err := json.Unmarshal([]byte(line), &so); err != nil || len(so.Results) != len(calls) {
+		ev.Infra("sequence child result unreadable: %v", err)
+		return nil, false
+	}
+	return so.Results, true
+}
+
+func isAncient(c call) bool {
+	return c.Kind == "AncientYear" || (c.A < 1700 && c.Kind != "Holiday" && c.Kind != "HolidayViews" && c.Kind != "ReverseBaZi" && c.Kind != "FarYear" && c.Kind != "EdgeYear")
+}
+
+var freshProcess = ev.Register(&ev.P[freshCase]{
+	Name: "fresh_process_baseline",
+	Rule: "a generated probe call and a generated history (1..12 public calls; years from -799 to 9990, with emphasis on the eras whose new moons / terms come from the historical look-up tables); oracle: the probe's rendered result in a NEW PROCESS that makes only this call equals its result in another new process that first runs the history, and equals its result in this (long-running) process — whatever package-level state earlier calls may leave behind, not only the year cache the hook can reset; non-trivial: the history holds a call for another year of the table eras (before 1700) or the probe is such a call",
+	Check: func(c freshCase) error {
+		alone, ok := runInFreshProcess([]call{c.Probe})
+		if !ok {
+			return nil
+		}
+		after, ok := runInFreshProcess(append(append([]call(nil), c.History...), c.Probe))
+		if !ok {
+			return nil
+		}
+		if got := after[len(after)-1]; got != alone[0] {
+			return fmt.Errorf("probe %+v: a fresh process answers differently after the history %+v:\n alone: %.400q\n after: %.400q", c.Probe, c.History, alone[0], got)
+		}
+		if got := run(c.Probe); got != alone[0] {
+			return fmt.Errorf("probe %+v: this long-running process answers differently from a fresh one:\n fresh: %.400q\n here:  %.400q", c.Probe, alone[0], got)
+		}
+		return nil
+	},
+	Class: func(c freshCase) ([]string, bool) {
+		ls := []string{"probe:" + c.Probe.Kind}
+		nt := isAncient(c.Probe)
+		for _, h := range c.History {
+			if isAncient(h) && h.A != c.Probe.A {
+				nt = true
+			}
+		}
+		if c.Probe.Kind == "AncientYear" {
+			ls = append(ls, "ancientProbe")
+		}
+		if nt {
+			ls = append(ls, "tableEras")
+		}
+		return ls, nt
+	},
+	Require: []string{"ancientProbe", "tableEras"},
 })
 
 // a held object must not change when later calls are made (aliasing of cached tables)
@@ -798,6 +936,26 @@ func TestC09(t *testing.T) {
 			cs = append(cs, sectCall{rapid.SampledFrom(fam).Draw(t, "method"), rapid.IntRange(0, 3).Draw(t, "sect")})
 		}
 		return sectCase{m, cs}
+	})
+	freshProcess.Rapid(ev.Share(ev.Pick(400, 6400)), func(t *rapid.T) freshCase {
+		eraCall := func(label string) call {
+			base := gen.Year(t, 3, 9990)
+			if rapid.IntRange(0, 2).Draw(t, label+"era") > 0 { // the eras served by the historical tables
+				base = rapid.IntRange(3, 1700).Draw(t, label+"y")
+			}
+			c := genCall(t, base)
+			if rapid.IntRange(0, 3).Draw(t, label+"anc") == 0 {
+				c.Kind = "AncientYear"
+				c.A = rapid.IntRange(0, 3999).Draw(t, label+"a")
+			}
+			return c
+		}
+		n := rapid.IntRange(1, 12).Draw(t, "len")
+		h := make([]call, n)
+		for i := range h {
+			h[i] = eraCall("h")
+		}
+		return freshCase{History: h, Probe: eraCall("p")}
 	})
 	concurrent.Rapid(ev.Share(ev.Pick(120, 2400)), genConc)
 	// race-detector batches: the same generator, run in the -race child
